@@ -124,11 +124,11 @@ def setPath : List Str → Tree → Tree → Tree
 
 /-- `template()`: every registered key with a default becomes `name = default` under its `[section]`; keys without
     a default are only listed in a comment -/
-def templateDoc (registry : List (List Str × Option Leaf)) : Tree :=
-  registry.foldl (fun t e => match e.2 with | some d => setPath e.1 (.leaf d) t | none => t) .nil
+def templateDoc (registry : List (List Str × Option Tree)) : Tree :=
+  registry.foldl (fun t e => match e.2 with | some d => setPath e.1 d t | none => t) .nil
 
 /-- the keys the template mentions (set or commented) -/
-def templateKeys (registry : List (List Str × Option Leaf)) : List (List Str) := registry.map (·.1)
+def templateKeys (registry : List (List Str × Option Tree)) : List (List Str) := registry.map (·.1)
 
 def isPrefix : List Str → List Str → Bool
   | [], _ => true
